@@ -116,12 +116,13 @@ theorem recvNU_cases (a nb : Ty) (fa : a.TF) (hnb : asg cfg sfh nb .undef = true
     exfalso
     unfold asgRecv at h
     simp only [Bool.or_eq_true] at h
-    rcases h with (((h | h) | h) | h) | h
+    rcases h with ((((h | h) | h) | h) | h) | h
     · rw [leafF .str rfl (by unfold asgRecv; rfl)] at h; cases h
     · rw [leafF .numeric rfl (by unfold asgRecv; rfl)] at h; cases h
     · rw [leafF (.bool none) rfl (by unfold asgRecv; rfl)] at h; cases h
     · rw [leafF (.regexp "") rfl (by unfold asgRecv; rfl)] at h; cases h
     · rw [leafF (.tspan Rng.all) rfl (by unfold asgRecv; rfl)] at h; cases h
+    · rw [leafF (.tstamp tstampAll) rfl (by unfold asgRecv; rfl)] at h; cases h
   | scalarData =>
     exfalso
     unfold asgRecv at h
@@ -172,7 +173,7 @@ theorem accepts_any : ∀ (n : Nat) (a : Ty), a.w ≤ n → a.TF → asg cfg sfh
       | scalar =>
         exfalso; unfold asgRecv at h
         simp only [Bool.or_eq_true] at h
-        rcases h with (((h | h) | h) | h) | h <;>
+        rcases h with ((((h | h) | h) | h) | h) | h <;>
           (rw [asg_plain_r cfg sfh _ .any rfl] at h; simp [Ty.isAny, sameNullary, asgRecv, isStringFamily] at h)
       | scalarData =>
         exfalso; unfold asgRecv at h
